@@ -20,6 +20,7 @@ package main
 import (
 	"fmt"
 	"go/ast"
+	"go/constant"
 	"reflect"
 	"regexp"
 	"go/token"
@@ -232,6 +233,36 @@ func (e *Engine) evalRule(r *StructRule) []*Obligation {
 		if len(out) == 0 {
 			out = append(out, e.structObl(r, "all", true, fmt.Sprintf("%d functions checked, none calls the %d listed functions", matched, len(to))))
 		}
+		return out
+	case "digit_tables":
+		// digit_tables : the constants digits, digit2 and digit3 of the package are the decimal
+		// tables the contracts assume (checked by evaluating the constants)
+		var out []*Obligation
+		p := e.pkgs[r.Pkg]
+		check := func(name string, width, count int) {
+			obj := p.Types.Scope().Lookup(name)
+			c, ok := obj.(*types.Const)
+			if !ok {
+				out = append(out, e.structObl(r, name, false, "constant not found"))
+				return
+			}
+			v := constant.StringVal(c.Val())
+			if len(v) != width*count {
+				out = append(out, e.structObl(r, name, false, fmt.Sprintf("length %d, want %d", len(v), width*count)))
+				return
+			}
+			for k := 0; k < count; k++ {
+				want := fmt.Sprintf("%0*d", width, k)
+				if v[k*width:(k+1)*width] != want {
+					out = append(out, e.structObl(r, name, false, fmt.Sprintf("entry %d is %q, want %q", k, v[k*width:(k+1)*width], want)))
+					return
+				}
+			}
+			out = append(out, e.structObl(r, name, true, fmt.Sprintf("%d entries of %d digits, each the decimal representation of its index", count, width)))
+		}
+		check("digits", 1, 10)
+		check("digit2", 2, 100)
+		check("digit3", 3, 1000)
 		return out
 	case "decode_cells":
 		return e.ruleDecodeCells(r)
